@@ -215,7 +215,8 @@ def t2(run, project):
                     if isinstance(q, ast.Raise):
                         in_raise = True
                     q = q._parent
-                ok = (isinstance(p, ast.Call) and call_name(p) in ("iter", "next") and p.args and p.args[0] is n) or in_raise
+                iterated = (isinstance(p, (ast.For, ast.comprehension)) and p.iter is n)  # for-loops use iter()/next()
+                ok = (isinstance(p, ast.Call) and call_name(p) in ("iter", "next") and p.args and p.args[0] is n) or in_raise or iterated
                 run.ob("T2", ok, f"{modname.split('.')[-2]}.{fname}: buffer use at L{n.lineno} is iter()/next()",
                        f"`{norm(stmt).splitlines()[0]}` uses the input other than through iter()/next(): the source is "
                        "pre-read or must be a sequence", module=mod, node=stmt, func=fname,
